@@ -72,7 +72,7 @@ impl ShortGroupSignatureScheme for BbsScheme {
             G1Projective::sum_of_products,
         );
         for (i, m) in messages {
-            if *i > public_key.y.len() {
+            if *i >= public_key.y.len() {
                 return Err(Error::General("invalid blind signing"));
             }
             secrets.push(*m);
